@@ -157,8 +157,8 @@ Fixpoint wfb (t : tree) : bool :=
 (* ---- the compatible changes of the property, as a relation on trees ----
    [Compat o n]: same value; every old child has a same-named Compat counterpart among the new
    children, in the same relative order; new children may additionally stand
-     - anywhere, under a node whose constraint [allows_insert] (Types, and every node without a
-       table row: Containers, Uniques, a workspace node, ...),
+     - anywhere, under a node whose constraint [allows_insert] (Types, Containers, and every node
+       without a table row: Uniques, a type or workspace node, ...),
      - only after all old children, under a node whose constraint [allows_append] (Fields),
      - nowhere otherwise (PartKeyFields, ClustColsFields, CommandArgs, ...). *)
 Definition allows_insert (c : N) : bool :=
@@ -337,7 +337,7 @@ Definition satisfies (t : trace) : bool :=
   end.
 
 (* on which claims the theorems promise [satisfies] (everything except what the current table
-   leaves unconstrained: finding F15) *)
+   leaves unconstrained: QueryArgs / QueryResult, finding F15b) *)
 Definition parent_constraint (cs : ctable) (q : path) (o : tree) : N :=
   match split_last q with
   | Some (par, _) => match sub_at par o with Some po => find_constraint (tname po) cs | None => compat_c_all_allowed end
